@@ -5,6 +5,7 @@
 use pest::error::{Error, ErrorVariant, InputLocation, LineColLocation};
 use pest::iterators::PairsBuilder;
 use pest::{state, Position, Span};
+use std::ops::Bound;
 use std::panic::{catch_unwind, AssertUnwindSafe};
 
 #[allow(non_camel_case_types)]
@@ -111,6 +112,19 @@ fn check_text(text: &str) -> Result<(), String> {
                 }
             }
             same("..".to_string(), sp.get(..), inner.get(..), 0)?;
+            // bounds at the end of the integer range: `str::get` answers None; a span must not be built (and nothing may overflow)
+            let big = usize::MAX;
+            macro_rules! edge { ($what:expr, $e:expr, $w:expr, $x:expr) => {{
+                let what: String = $what;
+                let got = catch_unwind(AssertUnwindSafe(|| $e)).map_err(|_| format!("Span({},{}).get({}) in {:?} panics (integer overflow); str::get on the span's text answers {:?}", a, b, what, text, $w))?;
+                same(what, got, $w, $x)?;
+            }} }
+            edge!(format!("..={}", big), sp.get(..=big), inner.get(..=big), 0);
+            edge!(format!("0..={}", big), sp.get(0..=big), inner.get(0..=big), 0);
+            edge!(format!("(Excluded({}), Unbounded)", big), sp.get((Bound::Excluded(big), Bound::Unbounded)), inner.get((Bound::Excluded(big), Bound::Unbounded)), 0);
+            for x in 0..=m {
+                edge!(format!("(Excluded({}), Unbounded)", x), sp.get((Bound::Excluded(x), Bound::Unbounded)), inner.get((Bound::Excluded(x), Bound::Unbounded)), x + 1);
+            }
         }
         if sp.start_pos().line_col() != lc(text, a) || sp.end_pos().line_col() != lc(text, b) { return Err(format!("Span({},{}) start/end line_col in {:?}", a, b, text)); }
         // pairs: through the builder (index over the whole input) ...
